@@ -45,13 +45,19 @@ def reads(e: ast.AST) -> set[str]:
 
 
 class Deps:
-    def __init__(self, f: FuncInfo) -> None:
+    def __init__(self, f: FuncInfo, helpers: "dict[str, FuncInfo] | None" = None) -> None:
+        """helpers: methods of the same object called as `self.<name>(...)` that are to be treated like the function's own
+        closures (a nested generator moved to a private method is still part of the same computation)."""
         self.f = f
+        self.helpers = dict(helpers or {})
         self.direct: dict[str, set[str]] = {}
         self.returns: dict[str, set[str]] = {}  # closure name -> vars its return/yield values read
         self._scan(f, prefix="")
         for name, g in f.nested.items():
             self._scan(g, prefix="")
+        for name, g in self.helpers.items():
+            self._scan(g, prefix="")
+            self.returns[f"self.{name}"] = self.returns.get(g.name, set())
         self._close()
 
     def _add(self, tgt: str, srcs: set[str]) -> None:
@@ -103,9 +109,14 @@ class Deps:
             elif isinstance(n, ast.Call):
                 # binding of closure parameters: g(a) makes g's params depend on the args
                 fn = n.func.id if isinstance(n.func, ast.Name) else None
-                if fn and fn in self.f.nested:
-                    h = self.f.nested[fn]
+                h = self.f.nested.get(fn) if fn else None
+                skip_self = False
+                if h is None and isinstance(n.func, ast.Attribute) and isinstance(n.func.value, ast.Name) and n.func.value.id == "self" and n.func.attr in self.helpers:
+                    h, skip_self = self.helpers[n.func.attr], True
+                if h is not None:
                     params = [a.arg for a in h.node.args.posonlyargs + h.node.args.args]
+                    if skip_self and params and params[0] in ("self", "cls"):
+                        params = params[1:]
                     for p, a in zip(params, n.args):
                         self._add(p, reads(a))
                     for k in n.keywords:
